@@ -104,7 +104,7 @@ func c15Run(t *testing.T, s *sim.Scn) *sim.Outcome {
 			for j := 0; j < n; j++ {
 				key := fmt.Sprintf("k%d", (int(op.B)+j)%5)
 				if op.C%7 == 3 {
-					key = "finalizedHeight" // an application key that happens to look like bookkeeping
+					key = "finalized/height" // an application key that looks like bookkeeping but is not reserved
 				}
 				txs = append(txs, []byte(fmt.Sprintf("%s=v%d-%d", key, i, j)))
 			}
